@@ -128,6 +128,15 @@ def build_and_run(pid, runs, verdict, ncrates=16, grace_ms=0, extra_run_fields=N
         # programs with a custom futures_crate_path live in crates that do not depend on `futures` under that name
         nf = "nf" if P.get("opts", {}).get("path", "default") == "custom" else ""
         crates.setdefault(f"{pid.lower()}_{tag}{nf}_{i % ncr}", []).append((fn, P))
+    # one mixed crate: some calls that carry `futures_crate_path` are expanded first, calls without the option after them in the
+    # same compilation (an option belongs to the call it is written in)
+    cust = [x for c, ps in crates.items() if "nf_" in c for x in ps][::4][:6]
+    if cust:
+        plain = [x for c, ps in crates.items() if "nf_" not in c for x in ps if x[1]["kind"]["async"]][::3][:24]
+        moved = {fn for fn, _ in cust + plain}
+        crates = {c: [x for x in ps if x[0] not in moved] for c, ps in crates.items()}
+        crates = {c: ps for c, ps in crates.items() if ps}
+        crates[f"{pid.lower()}_{tag}mx_0"] = cust + plain
     ws = os.path.join(C.workdir(pid), tag)
     t0 = time.time()
     bad = set()
